@@ -261,6 +261,9 @@ func (e *pathEngine) walkInstrs(fr *Frame, b *ssa.BasicBlock, idx int, en *env, 
 			k(en, ret)
 			return
 		case *ssa.Panic:
+			if isSelectFallthroughPanic(x) {
+				return // "blocking select matched no case": infeasible
+			}
 			e.events = append(e.events, Event{In: in, F: fr, E: en, Idx: len(e.events)})
 			e.emit("panic", nil)
 			return
@@ -585,3 +588,12 @@ func calleeOf(ev Event) *ssa.Function {
 }
 
 func isType(t types.Type, name string) bool { return typeName(t) == name }
+
+func isSelectFallthroughPanic(p *ssa.Panic) bool {
+	if mi, ok := p.X.(*ssa.MakeInterface); ok {
+		if c, ok := mi.X.(*ssa.Const); ok && c.Value != nil && strings.Contains(c.Value.String(), "blocking select") {
+			return true
+		}
+	}
+	return false
+}
